@@ -438,11 +438,24 @@ func observedRun(r *gen.Rand, model bool) *hRun {
 		o.Floats = false
 		h.Src = gen.Program(r, o)
 	case "locals":
-		h.Src = hhdr + `var (p, q)
+		// slots that are read before anything in this run wrote them
+		h.Src = hhdr + `out := []
+try {
+  if a1 { throw "early" }
+  total := 5
+  more := [total]
+} catch err {
+  out = [1]
+} finally {
+  // variables defined in the try or catch block are visible here, defined or not
+  out = append(out, total, more, err)
+}
+g := func(x) {
+  try { if x { throw "early" }; t2 := [x]; t3 := t2 } catch e2 { x = 0 } finally { return [t2, t3, e2] }
+}
+var (p, q)
 f := func(x) { var (u, v, w); if x { u = 1 }; return [u, v, w, x] }
-var z
-for i := 0; i < 2; i++ { var t; if i == 1 { z = t }; t = i }
-return [p, q, z, f(false), f(a0)]
+return [out, p, q, f(false), f(a0), g(false), g(true)]
 `
 	case "recurse":
 		h.Src = hhdr + fmt.Sprintf("var f\nf = func(k, a) { if k == 0 { return [a] }; r := f(k-1, a); return r }\nreturn f(%d, a0)\n", 1+r.Intn(400))
